@@ -409,15 +409,19 @@ def rule_must_expire(ctx):
                 for nm in ('time_to_live', 'time_to_idle'):
                     if has_field(c, (nm,)):
                         d[nm] = v
+                if has_field(c, ('valid_after',)):
+                    d['has_valid_after'] = v
+            if isinstance(c, tuple) and c[0] == 'discr' and has_field(c[1], ('valid_after',)) and not has_call(c[1], ('last_', 'checked_add')):
+                d['has_valid_after'] = (v == 1)
         return d
     # sync: maintenance run
     for m in sorted(R.maintenance):
         for p in _run(ctx, m, inline_depth=1, loop_visits=2, inline_pred=lambda n_, b, d: False):
             d = conf_lits(p)
-            if 'has_expiry' not in d and 'has_valid_after' not in d:
-                continue
-            should = d.get('has_expiry') is True or d.get('has_valid_after') is True
             called = any(e[0] == 'call' and str(e[1]).endswith('Inner::evict_expired') for e in p.events)
+            # a path may skip the expiry step only after establishing that neither expiry nor a watermark exists
+            established_off = d.get('has_expiry') is False and d.get('has_valid_after') is False
+            should = d.get('has_expiry') is True or d.get('has_valid_after') is True or not established_off
             n += 1
             r.instance(function=m, has_expiry=d.get('has_expiry'), has_valid_after=d.get('has_valid_after'), expiry_step_called=called)
             if should != called:
@@ -440,6 +444,11 @@ def rule_must_expire(ctx):
             want_wo = 1 if ttl else 0
             want_ao = 3 if (tti or (kind == 'sync' and va)) else 0
             ok = (ttl is None or wo == want_wo) and ((tti is None and va is None) or ao == want_ao)
+            # a path may skip a scan only after establishing that its timer is not configured
+            if wo == 0 and ttl is not False:
+                ok = False
+            if ao == 0 and not (tti is False and (kind == 'unsync' or va is False)):
+                ok = False
             r.instance(function=nid, ttl=ttl, tti=tti, watermark=va, write_order_scans=wo, access_order_scans=ao, ok=ok)
             if not ok:
                 r.violate(nid, 'expiry-scan-condition', 'wo=%d,ao=%d' % (wo, ao), 'a path of %s with ttl=%s tti=%s watermark=%s runs %d write-order and %d access-order scans (expected %d and %d): '
